@@ -68,6 +68,8 @@ func HO17c() {
 		argv, length = append(argv, "--length=1"), 1
 	case 1:
 		argv, length = append(argv, "--length", "8"), 8
+	case 3:
+		argv, length = append(argv, "--length=200"), 200 // counts beyond float64 range
 	}
 	nl := vParam("classlists", len(ho17ClassLists))
 	allow, require, exclude := ho17ClassLists[vChoice("allow", nl)], ho17ClassLists[vChoice("require", nl)], ho17ClassLists[vChoice("exclude", nl)]
@@ -81,6 +83,9 @@ func HO17c() {
 		argv = append(argv, "-exclude="+exclude)
 	}
 	entropy := vChoice("entropy", 2) == 1
+	if length > 100 && !entropy && vEngine() {
+		return // 200 symbolic draws: entropy only
+	}
 	if entropy {
 		argv = append(argv, "--entropy")
 	}
